@@ -239,7 +239,8 @@ def _gen_asg(rng, malformed):
             pr = rng.choice(PROIDS)
             prev.append([rng.randrange(len(allocs)), rng.choice([pr + '.*', pr + '.web*', '*@' + pr + '.*', pr + '.' + rng.choice(APPS)]),
                          rng.choice([0, 1, 5, 50])])
-    return {'allocs': allocs, 'entries': entries, 'finds': finds, 'loads': loads, 'prev': prev}
+    return {'allocs': allocs, 'entries': entries, 'finds': finds, 'loads': loads, 'prev': prev,
+            'parent_records': rng.random() < 0.3}
 
 
 def gen_case(rng, pid, tier):
@@ -311,6 +312,7 @@ def with_ops(case, ops):
     walk(c['tree'], [])
     c['asg'] = {'allocs': list((case.get('asg') or {}).get('allocs', [])),
                 'prev': list((case.get('asg') or {}).get('prev', [])),
+                'parent_records': bool((case.get('asg') or {}).get('parent_records')),
                 'entries': [op[1] for op in ops if op[0] == 'entry'],
                 'finds': [op[1] for op in ops if op[0] == 'find'],
                 'loads': [op[1] for op in ops if op[0] == 'load']}
@@ -688,6 +690,7 @@ def _stats(q, info, sch, running):
 
 
 def _run_assign(asg, run):
+    import re as _re0
     from treadmill.scheduler import loader as ldr_mod
     from treadmill import zknamespace as z
     backend = _Backend()
@@ -706,8 +709,31 @@ def _run_assign(asg, run):
             for i, name in enumerate(asg['allocs'])]
         ldr.load_allocations()
         run.tags.add('asg-reloaded')
-    backend.data[z.ALLOCATIONS] = data
+    # records of parent allocations of their own (`t1` besides `t1/a0`), listed BEFORE their children, with
+    # attributes of their own: a record configures the allocation it names and nothing else
+    parents = sorted({_re0.split('[/:]', name)[0] for name in asg['allocs']}) if asg.get('parent_records') else []
+    pdata = [{'partition': '_default', 'name': pn, 'rank': 10 + 7 * j, 'rank_adjustment': 3 + j, 'max_utilization': 2 + j,
+              'memory': '%dM' % (20 + j), 'cpu': '%d%%' % (30 + j), 'disk': '%dM' % (40 + j), 'assignments': []}
+             for j, pn in enumerate(parents)]
+    backend.data[z.ALLOCATIONS] = pdata + data
     ldr.load_allocations()
+    if pdata:
+        run.tags.add('asg-parent-records')
+        root_ = ldr.cell.partitions['_default'].allocation
+        for rec_ in pdata + data:
+            a_ = root_
+            for part in _re0.split('[/:]', rec_['name']):
+                a_ = a_.get_sub_alloc(part)
+            want = (rec_['rank'], rec_.get('rank_adjustment', 0) or 0,
+                    rec_.get('max_utilization') if rec_.get('max_utilization') is not None else float('inf'),
+                    tuple(ldr_mod.resources(rec_)))
+            got = (a_.rank, a_.rank_adjustment, a_.max_utilization, tuple(a_.reserved))
+            # (an allocation named by several records keeps the attributes of the last one)
+            last = [r2 for r2 in pdata + data if r2['name'] == rec_['name']][-1]
+            if last is rec_ and got != want:
+                run.hits.append(fw.Hit(clause='allocation-attributes', call_site='Loader.load_allocations',
+                                       detail='%s: record says (rank, adjustment, cap, reserved) = %r, loaded %r' % (
+                                           rec_['name'], want, got)))
     root = ldr.cell.partitions['_default'].allocation
     import re as _re
     objs = {}
